@@ -67,8 +67,11 @@ func (wc *watchClient) Watch(ctx context.Context, key string, opts ...clientv3.O
 	}
 	w := &watcher{c: wc.c, start: op.KeyBytes(), end: op.RangeBytes(), out: make(chan clientv3.WatchResponse, 4096), notify: make(chan struct{}, 1), ctx: ctx}
 	s.mu.Lock()
-	w.id = s.nextWatch
-	s.nextWatch++
+	// per-client numbering: identity must not depend on which client got there first
+	wc.c.mu.Lock()
+	w.id = wc.c.nextWatch
+	wc.c.nextWatch++
+	wc.c.mu.Unlock()
 	if op.Rev() > 0 {
 		w.minRev = op.Rev()
 		for _, h := range s.history {
